@@ -238,7 +238,12 @@ class Read:
         self.calls += 1
 
 
-def verdict(ctx, P, rd, rem, ended, end_errors, stream, overflow_ok=False, detail=None):
+_RESULT_CLAUSES = {".result_type", ".wrong_data", ".partial_length", ".returned_unsatisfied", ".read_into_result",
+                   ".read_into_touched_rest_of_buffer", ".returned_instead_of_closing", ".returned_more_than_max_bytes"}
+
+
+def verdict(ctx, P, rd, rem, ended, end_errors, stream, overflow_ok=False, detail=None,
+            may_fail=False, sig_suffix=None):
     """Compare the state of read `rd` at quiescence with the model.
 
     rem         delivered-but-unconsumed bytes (model)
@@ -247,6 +252,11 @@ def verdict(ctx, P, rd, rem, ended, end_errors, stream, overflow_ok=False, detai
                 stream ended (list; compared by identity, None = clean close)
     overflow_ok the unconsumed delivered data exceeds max_buffer_size, so StreamBufferFullError is an
                 acceptable (EITHER) outcome
+    may_fail    a StreamClosedError is acceptable even though rem could satisfy the request
+                (C13: "later reads succeed *only* from buffered data" is not an iff once an earlier
+                read failed on the closed stream)
+    sig_suffix  structural input class; result-shape clauses then use the known-finding signature
+                P + ".read_result" + sig_suffix
     -> ("pending", 0) | ("ok", nbytes) | ("failed", 0) | ("either", 0)
     """
     from tornado.iostream import StreamBufferFullError, StreamClosedError, UnsatisfiableReadError
@@ -258,6 +268,13 @@ def verdict(ctx, P, rd, rem, ended, end_errors, stream, overflow_ok=False, detai
     if detail:
         d.update(detail)
 
+    def fail(clause, det):
+        # result-shape clauses of one structural input class share one known-finding signature
+        sig = None
+        if sig_suffix and clause in _RESULT_CLAUSES:
+            sig = P + ".read_result" + sig_suffix
+        ctx.fail(P + clause, det, sig=sig)
+
     def closed_error(exc):
         real = exc.real_error
         if overflow_ok:
@@ -265,20 +282,20 @@ def verdict(ctx, P, rd, rem, ended, end_errors, stream, overflow_ok=False, detai
             # StreamBufferFullError into the event handler); the statement is silent about it
             return ("either", 0)
         if isinstance(real, StreamBufferFullError):
-            ctx.fail(P + ".buffer_full_below_limit", dict(d, real_error=repr(real)))
-        if exp[0] in ("data", "prefix"):
-            ctx.fail(P + ".read_failed_but_satisfiable", dict(d, real_error=repr(real)))
+            fail(".buffer_full_below_limit", dict(d, real_error=repr(real)))
+        if exp[0] in ("data", "prefix") and not may_fail:
+            fail(".read_failed_but_satisfiable", dict(d, real_error=repr(real)))
         if exp[0] == "pending":
-            ctx.fail(P + ".read_failed_while_open", dict(d, real_error=repr(real)))
-        if exp[0] == "fail":
-            if not any(real is e for e in end_errors):
-                ctx.fail(P + ".real_error", dict(d, real_error=repr(real), want=[repr(e) for e in end_errors]))
+            fail(".read_failed_while_open", dict(d, real_error=repr(real)))
         if exp[0] == "unsat":
             ok = isinstance(real, UnsatisfiableReadError) or (ended and any(real is e for e in end_errors))
             if not ok:
-                ctx.fail(P + ".real_error_unsatisfiable", dict(d, real_error=repr(real)))
+                fail(".real_error_unsatisfiable", dict(d, real_error=repr(real)))
             if not stream.closed():
-                ctx.fail(P + ".max_bytes_stream_not_closed", d)
+                fail(".max_bytes_stream_not_closed", d)
+        elif exp[0] != "pending":
+            if not any(real is e for e in end_errors):
+                fail(".real_error", dict(d, real_error=repr(real), want=[repr(e) for e in end_errors]))
         return ("failed", 0)
 
     if rd.raised is not None:
@@ -286,39 +303,42 @@ def verdict(ctx, P, rd, rem, ended, end_errors, stream, overflow_ok=False, detai
         if isinstance(e, StreamBufferFullError):
             if overflow_ok:
                 return ("either", 0)
-            ctx.fail(P + ".buffer_full_below_limit", dict(d, raised=repr(e)))
+            fail(".buffer_full_below_limit", dict(d, raised=repr(e)))
         if isinstance(e, StreamClosedError):
             return closed_error(e)
-        ctx.fail(P + ".read_call_raised", dict(d, raised=repr(e)))
+        fail(".read_call_raised", dict(d, raised=repr(e)))
         return ("failed", 0)
 
     fut = rd.fut
     if not fut.done():
         if exp[0] == "pending":
             return ("pending", 0)
-        ctx.fail(P + ".read_never_completes", d)
+        fail(".read_never_completes", d)
         return ("failed", 0)
     if rd.calls != 1:
-        ctx.fail(P + ".future_callbacks_not_exactly_once", dict(d, calls=rd.calls))
+        fail(".future_callbacks_not_exactly_once", dict(d, calls=rd.calls))
     if fut.cancelled():
-        ctx.fail(P + ".future_cancelled", d)
+        fail(".future_cancelled", d)
+        return ("failed", 0)
     exc = fut.exception()
     if exc is not None:
         if isinstance(exc, StreamClosedError):
             return closed_error(exc)
-        ctx.fail(P + ".wrong_exception_type", dict(d, exc=repr(exc)))
+        fail(".wrong_exception_type", dict(d, exc=repr(exc)))
         return ("failed", 0)
 
     res = fut.result()
     into = spec[0] == "into"
     if into:
         if type(res) is not int or not (0 <= res <= len(rd.buf)):
-            ctx.fail(P + ".read_into_result", dict(d, got=repr(res)))
+            fail(".read_into_result", dict(d, got=repr(res)))
+            return ("failed", 0)
         got = bytes(rd.buf[:res])
         tail_ok = all(b == SENTINEL for b in rd.buf[res:])
     else:
         if type(res) is not bytes:
-            ctx.fail(P + ".result_type", dict(d, got=repr(res)[:80]))
+            fail(".result_type", dict(d, got=repr(res)[:80]))
+            return ("failed", 0)
         got = res
         tail_ok = True
     d["got_len"] = len(got)
@@ -329,20 +349,20 @@ def verdict(ctx, P, rd, rem, ended, end_errors, stream, overflow_ok=False, detai
         return ("either", 0)
     if exp[0] == "data":
         if got != exp[1]:
-            ctx.fail(P + ".wrong_data", dict(d, want_len=len(exp[1]), want_head=exp[1][:40]))
+            fail(".wrong_data", dict(d, want_len=len(exp[1]), want_head=exp[1][:40]))
     elif exp[0] == "prefix":
         if not (1 <= len(got) <= exp[1]):
-            ctx.fail(P + ".partial_length", d)
+            fail(".partial_length", d)
         if got != bytes(rem[: len(got)]):
-            ctx.fail(P + ".wrong_data", dict(d, want_head=bytes(rem[:40])))
+            fail(".wrong_data", dict(d, want_head=bytes(rem[:40])))
     elif exp[0] == "unsat":
         if len(got) > rd.mb:
-            ctx.fail(P + ".returned_more_than_max_bytes", d)
-        ctx.fail(P + ".returned_instead_of_closing", d)
+            fail(".returned_more_than_max_bytes", d)
+        fail(".returned_instead_of_closing", d)
     else:  # pending / fail: nothing in rem satisfies the request, yet it returned
-        ctx.fail(P + ".returned_unsatisfied", d)
+        fail(".returned_unsatisfied", d)
     if not tail_ok:
-        ctx.fail(P + ".read_into_touched_rest_of_buffer", dict(d, buf_tail=bytes(rd.buf[res:res + 20])))
+        fail(".read_into_touched_rest_of_buffer", dict(d, buf_tail=bytes(rd.buf[res:res + 20])))
     return ("ok", len(got))
 
 
